@@ -3,23 +3,24 @@
 use crate::report::Tier;
 use serde_json::Value;
 
-pub mod c13;
-pub mod c20;
-
-pub fn run(id: &str, tier: Tier) -> i32 {
-    match id {
-        "C13" => c13::run(tier),
-        "C20" => c20::run(tier),
-        _ => crate::util::machinery_error(&format!("no check for property {id}")),
-    }
+macro_rules! props {
+    ($(($id:literal, $m:ident)),* $(,)?) => {
+        $(pub mod $m;)*
+        pub fn run(id: &str, tier: Tier) -> i32 {
+            match id {
+                $($id => $m::run(tier),)*
+                _ => crate::util::machinery_error(&format!("no check for property {id}")),
+            }
+        }
+        /// Re-execute one recorded case without the explorer. The returned
+        /// object has a `violation` member (null when the case does not violate).
+        pub fn replay(id: &str, case: &Value) -> Value {
+            match id {
+                $($id => $m::replay(case),)*
+                _ => crate::util::machinery_error(&format!("no replay for property {id}")),
+            }
+        }
+    };
 }
 
-/// Re-execute one recorded case without the explorer. The returned object
-/// has a `violation` member (null when the case does not violate).
-pub fn replay(id: &str, case: &Value) -> Value {
-    match id {
-        "C13" => c13::replay(case),
-        "C20" => c20::replay(case),
-        _ => crate::util::machinery_error(&format!("no replay for property {id}")),
-    }
-}
+props!(("C02", c02), ("C13", c13), ("C20", c20));
